@@ -315,11 +315,13 @@ func planEnvs(prop string, f *model.File, runSeed uint64, dom int, vals []int, t
 }
 
 type cosimProgram struct {
-	f    *model.File
-	src  string
-	lm   bool
-	tops map[string]bool
-	ents []model.Entry
+	f   *model.File
+	src string
+	lm  bool
+	// stdin: line markers requested (lm) but no input path, as when the front end reads stdin
+	stdin bool
+	tops  map[string]bool
+	ents  []model.Entry
 }
 
 type cosimCounters struct {
@@ -347,6 +349,9 @@ var forceCLI bool
 
 func compileFor(p *cosimProgram, optimize, lm bool) (comp.Options, comp.Result) {
 	o := cosimOptions(p.f, optimize, lm)
+	if p.stdin {
+		o.Path = "" // the front end's stdin mode: -lm is on by default, but there is no file name to put in a marker
+	}
 	res := comp.Compile(p.src, &o, cosimCompLim, nil)
 	transp.maybe(p.src, &o, &res)
 	return o, res
@@ -632,6 +637,7 @@ func CosimWorker(pm *Params) (*Stats, []*Failure) {
 		lm := or.Bool()
 		layoutSeed := rng.Sub(runSeed, "layout")
 		p := buildProgram(f, style, layoutSeed, lm)
+		p.stdin = lm && or.Fork("stdin").P(0.3)
 		plan := planEnvs(prop, f, runSeed, cfg.Dom, cfg.Vals, pm.Thorough, cfg.Big || i%64 == 17)
 		if cfg.DriveDeep {
 			// game states that walk down a deep nest: most flags set, switched vars mostly 1
@@ -737,6 +743,7 @@ func cosimReport(pm *Params, run, runSeed uint64, p *cosimProgram, plan *envPlan
 	}
 	try := func(f *model.File, st int) *cosimFail {
 		q := buildProgram(f, st, layoutSeed, p.lm)
+		q.stdin = p.stdin
 		ff := cosimEval(prop, q, narrow, nil, "")
 		if ff != nil && ff.oracle == oracle {
 			best, bestFail = q, ff
@@ -831,6 +838,7 @@ func CosimReplay(r *Replay) (string, string) {
 		}
 	}
 	p := &cosimProgram{f: r.Model, src: r.Source, lm: r.Options != nil && r.Options.LineMarkers, tops: topsOf(r.Model), ents: r.Model.Entries()}
+	p.stdin = p.lm && r.Options.Path == ""
 	plan := &envPlan{}
 	if r.Env != nil {
 		plan.envs = []env.Env{*r.Env}
